@@ -1,6 +1,7 @@
 package harness
 
 import (
+	"bytes"
 	"fmt"
 	"math"
 	"sort"
@@ -103,6 +104,14 @@ func propEviction(c *Case) {
 		c.Class("no-stats")
 	}
 
+	// MostExpired ranks by the stored expiry however it got there: also in a cache with UnlimitedTTL whose
+	// entries carry expiries from per-call TTLs or from a restored dump
+	cfgTTL := 1000 * time.Hour
+	if strategy == cache.EvictMostExpired && c.Weighted("unlimited-ttl", 2, 1) == 1 {
+		cfgTTL = cache.UnlimitedTTL
+		c.Class("TimeToLive=Unlimited")
+	}
+
 	c.Bubble(func() {
 		tr := newCountTracker()
 		interval := time.Hour
@@ -111,7 +120,7 @@ func propEviction(c *Case) {
 
 		cfg := cache.Config{
 			Name: "ev", ItemsCountReportInterval: reportInterval,
-			TimeToLive: 1000 * time.Hour, ExpirationJitter: -1,
+			TimeToLive: cfgTTL, ExpirationJitter: -1,
 			DeleteExpiredJobInterval: interval, DeleteExpiredAfter: farFuture,
 			CountSoftLimit: limit, HeapInUseSoftLimit: heapLimit, SysMemSoftLimit: sysLimit, EvictFraction: frac, EvictionStrategy: strategy,
 		}
@@ -154,6 +163,18 @@ func propEviction(c *Case) {
 				n = c.Int("n", 0, 80)
 			}
 
+			// the refill may arrive as a dump of another instance (entries keep their expiries)
+			var src Backend
+
+			if c.Weighted("populate-via-restore", 3, 1) == 1 && len(pop) < n {
+				src = newCaseBackend(c, kind, cache.Config{
+					TimeToLive: 1000 * time.Hour, ExpirationJitter: -1, DeleteExpiredJobInterval: farFuture, DeleteExpiredAfter: farFuture,
+					ItemsCountReportInterval: farFuture,
+				})
+
+				c.Class("populated-via-Restore")
+			}
+
 			for len(pop) < n {
 				nkey++
 				k := fmt.Sprintf("k%03d", nkey)
@@ -181,9 +202,24 @@ func propEviction(c *Case) {
 					e.expiry = time.Now().Add(1000 * time.Hour).UnixNano()
 				}
 
-				err := be.Write(ttlCtx(ttl), []byte(k), "v"+k)
+				target := be
+				if src != nil {
+					target = src
+				}
+
+				err := target.Write(ttlCtx(ttl), []byte(k), "v"+k)
 				c.Assert(err == nil, "write-error", "Write: %v", err)
 				pop[k] = e
+			}
+
+			if src != nil {
+				var buf bytes.Buffer
+
+				nd, err := src.Dump(&buf)
+				c.Assert(err == nil, "dump-error", "Dump: %v", err)
+
+				nr, err := be.Restore(&buf)
+				c.Assert(err == nil && nr == nd, "restore-error", "Restore = (%d, %v), dumped %d", nr, err, nd)
 			}
 
 			keys := make([]string, 0, len(pop))
